@@ -7,7 +7,7 @@ from fractions import Fraction as Fr
 
 from ..core import Report, Undecided, AnalysisError
 from ..srcmodel import Model
-from ..forks import explore
+from ..forks import explore, Fork
 from ..ratfun import Rat
 from ..symex import (Interp, Hooks, Inst, Func, Bound, Builtin, Opaque, Rec,
                      SArr, ClassV, NPV, PyRaise, is_scalar, to_rat, _Scope)
@@ -150,6 +150,8 @@ def check(ctx):
          'semantics beyond the enumerated kinds', 'floating-point ties'])
     model = Model(ctx)
     _geometry(rep, model)
+    _uniformity(rep, model)
+    _ownership(rep, model)
     _completion(rep, model)
     _selection(rep, model)
     _location(rep, model)
@@ -605,6 +607,148 @@ def _completion(rep, model):
                 rep.violation('R2', 'nonuniform_partition', '%s: raises %s'
                               % (tag, e.name), PART, fn.lineno)
     rep.floor('R2', 'nonuniform_partition configurations', nnu, 16)
+
+
+def _uniformity(rep, model):
+    """R1u: the uniformity flag of a grid is a property of the increments
+    of a coordinate vector: the tolerance test behind it compares quantities
+    that do not change when the vector is translated (a test relative to the
+    magnitude of the coordinates declares a non-uniform grid far from the
+    origin uniform).  The statements of `RectGrid.__init__` that compute the
+    flag are interpreted on the vector `T + c_k` with a symbolic shift T; the
+    operands handed to `np.allclose` / `np.isclose` must be free of T."""
+    import numpy as _np
+    from ..namodel import NA, NAHooks, NAInterp, objarr
+    ci = model.get('RectGrid')
+    if ci is None:
+        raise AnalysisError('anchor vanished: RectGrid')
+    init = ci.methods['__init__']
+    target = None
+    for st in ast.walk(init):
+        if isinstance(st, ast.Assign) and any(
+                isinstance(t, ast.Attribute) and 'is_uniform' in t.attr
+                for t in st.targets):
+            target = st
+    if target is None:
+        raise AnalysisError('anchor vanished: uniformity flag in '
+                            'RectGrid.__init__')
+    names = {n.id for n in ast.walk(target.value) if isinstance(n, ast.Name)}
+    block = [s_ for s_ in init.body if isinstance(s_, ast.Assign) and any(
+        isinstance(t, ast.Name) and t.id in names for t in s_.targets)]
+    block.append(target)
+    seen = []
+
+    class UH(NAHooks):
+        def np_func(self, I, name):
+            if name in ('allclose', 'isclose'):
+                def close(a, b, *r, **k):
+                    seen.append((a, b))
+                    return True
+                return close
+            if name == 'linspace':
+                def linspace(a, b, num=50, **k):
+                    n_ = int(to_rat(num).constant())
+                    a, b = to_rat(a), to_rat(b)
+                    return NA(objarr([a + (b - a) * Rat.const(Fr(j, max(
+                        n_ - 1, 1))) for j in range(n_)]), 'float64')
+                return linspace
+            return NAHooks.np_func(self, I, name)
+
+        def on_getattr(self, interp, obj, name):
+            if isinstance(obj, Inst) and name == 'coord_vectors':
+                return obj.attrs['cv']
+            return NAHooks.on_getattr(self, interp, obj, name)
+    cons = 'RectGrid.__init__:is_uniform_byaxis'
+    try:
+        I = NAInterp(model, {}, UH())
+        inst = Inst(ci)
+        T = Rat.var('T')
+        inst.attrs['cv'] = (NA(objarr([T + Rat.var('c%d' % k)
+                                       for k in range(4)]), 'float64'),)
+        scope = _Scope(I.env_of(GRID))
+        scope.vars['self'] = inst
+        I.exec_block(block, scope, Func(init, I.env_of(GRID), ci))
+        if not seen:
+            raise Undecided('no tolerance test reached')
+        probs = []
+        for a, b in seen:
+            for nm, v in (('first', a), ('second (reference)', b)):
+                vals = v.a.ravel() if isinstance(v, NA) else [v]
+                if any('T' in [x for x in to_rat(z).vars()
+                               if isinstance(x, str)] for z in vals):
+                    probs.append('the %s operand of the tolerance test '
+                                 'depends on where the vector lies (%s ...)'
+                                 % (nm, str(to_rat(vals[0]))[:60]))
+        if probs:
+            rep.violation('R1u', cons, '; '.join(sorted(set(probs))), GRID,
+                          target.lineno)
+        else:
+            rep.holds('R1u', cons, 'the tolerance test compares increments '
+                      '(translation invariant)')
+    except Undecided as e:
+        rep.undecided('R1u', cons, str(e), GRID, target.lineno)
+    except PyRaise as e:
+        rep.violation('R1u', cons, 'raises %s' % e.name, GRID, target.lineno)
+
+
+def _ownership(rep, model):
+    """R1o: an interval product owns its limits: constructed from float64
+    arrays it stores copies (a partition computes its cell boundaries once;
+    limits that still are the caller's arrays move the set under the grid
+    when the caller updates them in place)."""
+    import numpy as _np
+    from ..namodel import NA, NAHooks, NAInterp, objarr
+    DOM = 'odl/set/domain.py'
+    ci = model.get('IntervalProd')
+    if ci is None:
+        raise AnalysisError('anchor vanished: IntervalProd')
+    init = ci.methods['__init__']
+    cons = 'IntervalProd.__init__[float64 arrays]'
+
+    class OH(NAHooks):
+        def on_decide(self, interp, cond, node):
+            if 'isnan(' in cond.key or 'isinf(' in cond.key:
+                return False                     # finite limits
+            k = cond.key.split(':')[0]
+            if cond.rat is not None and k == 'eq0':
+                return False                     # a_k < b_k strictly
+            if cond.rat is not None and k in ('Lt', 'LtE', 'Gt', 'GtE'):
+                # min_pt <= max_pt entrywise: a0 < b0, a1 < b1
+                r = cond.rat
+                vs_ = sorted(v for v in r.vars() if isinstance(v, str))
+                if len(vs_) == 2 and vs_[0][0] == 'a' and vs_[1][0] == 'b':
+                    sg = -1 if (r - (Rat.var(vs_[0]) - Rat.var(
+                        vs_[1]))).is_zero() else 1
+                    return {'Lt': sg < 0, 'LtE': sg <= 0, 'Gt': sg > 0,
+                            'GtE': sg >= 0}[k]
+            return NotImplemented
+    class OI(NAInterp):
+        def decide(self, key, node=None):
+            if 'isnan(' in key or 'isinf(' in key:
+                return False                     # finite limits
+            return NAInterp.decide(self, key, node)
+    try:
+        I = OI(model, {}, OH())
+        lo = NA(objarr([Rat.var('a0'), Rat.var('a1')]), 'float64')
+        hi = NA(objarr([Rat.var('b0'), Rat.var('b1')]), 'float64')
+        inst = Inst(ci)
+        I.call_func(Func(init, I.env_of(DOM), ci), [lo, hi], {}, inst)
+        probs = []
+        for nm, arg in (('min_pt', lo), ('max_pt', hi)):
+            st = inst.attrs.get('_IntervalProd__' + nm)
+            if not isinstance(st, NA):
+                raise Undecided('stored %s is %r' % (nm, st))
+            if st.a is arg.a or _np.shares_memory(st.a, arg.a):
+                probs.append('%s is the caller\'s array (no copy): an '
+                             'in-place update of it moves the set' % nm)
+        if probs:
+            rep.violation('R1o', cons, '; '.join(probs), DOM, init.lineno)
+        else:
+            rep.holds('R1o', cons, 'limits stored as copies')
+    except (Undecided, Fork) as e:
+        rep.undecided('R1o', cons, str(e), DOM, init.lineno)
+    except PyRaise as e:
+        rep.violation('R1o', cons, 'raises %s' % e.name, DOM, init.lineno)
 
 
 # --------------------------------------------------------------------------
